@@ -22,3 +22,86 @@ package sftp
 //@ func isRegular
 //@   property C17
 //@   ensures result <==> (mode & 0170000 == 0100000)
+
+// ---------------------------------------------------------------------------
+// wire primitives (packet.go)
+
+//@ func unmarshalUint32
+//@   property C08, C20, C06
+//@   results v, rest
+//@   requires len(b) >= 4
+//@   ensures rest == b[4:]
+//@   ensures v == be32(b, 0)
+//@   modifies nothing
+
+//@ func unmarshalUint32Safe
+//@   property C08, C20, C06
+//@   results v, rest, err
+//@   ensures err == nil ==> len(b) >= 4 && rest == b[4:] && v == be32(b, 0)
+//@   ensures err != nil ==> len(b) < 4 && err == errShortPacket && rest == nil
+//@   modifies nothing
+
+//@ func unmarshalUint64
+//@   property C08, C20, C06
+//@   results v, rest
+//@   requires len(b) >= 8
+//@   ensures rest == b[8:]
+//@   ensures v == be64(b, 0)
+//@   modifies nothing
+
+//@ func unmarshalUint64Safe
+//@   property C08, C20, C06
+//@   results v, rest, err
+//@   ensures err == nil ==> len(b) >= 8 && rest == b[8:] && v == be64(b, 0)
+//@   ensures err != nil ==> len(b) < 8 && err == errShortPacket && rest == nil
+//@   modifies nothing
+
+//@ func unmarshalString
+//@   property C08, C20, C06
+//@   results s, rest
+//@   requires len(b) >= 4
+//@   requires int64(be32(b, 0)) <= int64(len(b) - 4)
+//@   ensures len(s) == int(be32(b, 0))
+//@   ensures rest == b[4+int(be32(b, 0)):]
+//@   modifies nothing
+
+//@ func unmarshalStringSafe
+//@   property C08, C20, C06
+//@   results s, rest, err
+//@   ensures err == nil ==> len(b) >= 4 && int64(be32(b, 0)) <= int64(len(b) - 4) && len(s) == int(be32(b, 0)) && rest == b[4+int(be32(b, 0)):]
+//@   ensures err != nil ==> err == errShortPacket && rest == nil && (len(b) < 4 || int64(be32(b, 0)) > int64(len(b) - 4))
+//@   modifies nothing
+
+//@ func unmarshalExtensionPair
+//@   property C08, C20, C19
+//@   results ep, rest, err
+//@   ensures err == nil ==> len(rest) < len(b)
+//@   modifies nothing
+
+//@ func unmarshalIDString
+//@   property C08
+//@   results err
+//@   requires id != nil && str != nil
+//@   ensures err == nil ==> len(b) >= 4 && *id == be32(b, 0)
+//@   modifies *id, *str
+
+//@ func unmarshalAttrs
+//@   property C08, C20
+//@   results fs, rest, err
+//@   alloc-bound 4*len(b) + 64
+//@   ensures err == nil ==> fs != nil
+//@   ensures len(rest) <= len(b)
+
+//@ func unmarshalFileStat
+//@   property C08, C20
+//@   results fs, rest, err
+//@   alloc-bound 4*len(b) + 64
+//@   ensures err == nil ==> fs != nil
+//@   ensures err != nil ==> fs == nil
+//@   ensures len(rest) <= len(b)
+//@   loop 1 invariant len(b) <= len(old(b))
+
+//@ func unmarshalStatus
+//@   property C20
+//@   requires len(data) >= 4
+//@   ensures result != nil
